@@ -958,6 +958,25 @@ def fromMemoryOrder (s : View ν α) : Outcome (Option (View ν α)) :=
   | .ok _ => .ok none
   | .panic k => .panic k
 
+/-- a sequence of writes through one view, each `if let Some(r) = view.get_reference_mut(idx)
+    { *r = x }` — what a loop over `iter_reference_mut`, `map_mut`, `map_mut_with_index` (also one
+    cut short by a panicking closure) does to the leaves -/
+def writeMany : View ν α → List (List Nat × α) → Outcome (View ν α)
+  | v, [] => .ok v
+  | v, w :: rest =>
+    match v.write w.1 w.2 with
+    | .ok (some v') => writeMany v' rest
+    | .ok none => writeMany v rest
+    | .panic k => .panic k
+
+/-- the value the last write at `idx` stored, if there was one -/
+def lastWrite : List (List Nat × α) → List Nat → Option α
+  | [], _ => none
+  | w :: rest, idx =>
+    match lastWrite rest idx with
+    | some x => some x
+    | none => if w.1 = idx then some w.2 else none
+
 end View
 
 /-! ### Legacy formulas (what the unchanged tree executes; kept for the notes and examples) -/
